@@ -24,7 +24,8 @@ import (
 
 type c16Kind struct{ node, ns string }
 
-var c16Kinds = []c16Kind{{"n1", "x"}, {"n1", "y"}, {"n2", "x"}, {"n2", "y"}}
+// (last kind: a pod that is not assigned to a node - e.g. a Pending pod: no per-node cap applies, the other caps do; seed C16-F)
+var c16Kinds = []c16Kind{{"n1", "x"}, {"n1", "y"}, {"n2", "x"}, {"n2", "y"}, {"", "x"}}
 
 // c16Plugin is the evict plugin at the end of the chain: it stands for the API server.
 type c16Plugin struct {
@@ -76,7 +77,7 @@ func c16Exceeded(caps c16Caps, accepted []*corev1.Pod) string {
 		perNS[p.Namespace]++
 	}
 	for n, c := range perNode {
-		if caps.node >= 0 && c > caps.node {
+		if n != "" && caps.node >= 0 && c > caps.node {
 			return fmt.Sprintf("node %s: %d evictions issued, cap %d", n, c, caps.node)
 		}
 	}
